@@ -1507,3 +1507,86 @@ V('c18-twin-raw-local', 'C18', 'R18.1', PRIM,
   '''                stop = match.end(0)
                 return cls(bytes(unquoted), bytes(buf[start:stop])), buf[stop:]''',
   expect='silent')
+
+# ---------------------------------------------------------------- C07
+MODUTF7 = 'pymap/parsing/modutf7.py'
+RESPINIT = 'pymap/parsing/response/__init__.py'
+RESPSPEC = 'pymap/parsing/response/specials.py'
+TAGPY = 'pymap/parsing/specials/tag.py'
+V('c07-revert-cr', 'C07', 'R7.1', PRIM,
+  '''                and b'\\r' not in ascii_ \\
+                and b'\\n' not in ascii_ \\''',
+  '''                and b'\\n' not in ascii_ \\''')
+V('c07-nul-admitted', 'C07', 'R7.1', PRIM,
+  '''                and b'\\n' not in ascii_ \\
+                and b'\\x00' not in ascii_:''',
+  '''                and b'\\n' not in ascii_:''')
+V('c07-escape-only-quote', 'C07', 'R7.2', PRIM,
+  '''_quoted_specials_pattern = re.compile(br'[\\"\\\\]')''',
+  '''_quoted_specials_pattern = re.compile(br'[\\"]')''')
+V('c07-escape-no-backslash', 'C07', 'R7.2', PRIM,
+  "return b'\\\\' + match.group(0)", "return match.group(0)")
+V('c07-direct-quoted-name', 'C07', 'R7.3', RESPSPEC,
+  '''        return super().text + BytesFormat(b' ').join(
+            (self._name, attrs_obj, sep_obj, Mailbox(self.mailbox)))''',
+  '''        return super().text + BytesFormat(b' ').join(
+            (self._name, attrs_obj, sep_obj,
+             QuotedString(self.mailbox.encode('utf-8'))))''')
+V('c07-modutf7-wide-range', 'C07', 'R7.4', MODUTF7,
+  '''            elif 0x20 <= charpoint <= 0x7e:
+                ret.append(charpoint)''', '''            elif 0x20 <= charpoint <= 0xff:
+                ret.append(charpoint)''')
+V('c07-modutf7-raw-append', 'C07', 'R7.4', MODUTF7,
+  '''            else:
+                encode_start = i
+                is_usascii = False''', '''            elif charpoint < 0x20:
+                ret.append(charpoint)
+            else:
+                encode_start = i
+                is_usascii = False''')
+V('c07-fetch-no-crlf', 'C07', 'R7.5', RESPSPEC,
+  '''        data_list.write(writer)
+        writer.write(b'\\r\\n')''', '''        data_list.write(writer)
+        if self.data:
+            writer.write(b'\\r\\n')''')
+V('c07-response-lf-only', 'C07', 'R7.5', RESPINIT,
+  "writer.write(b'%b %b\\r\\n' % (self.tag, self.text))",
+  "writer.write(b'%b %b\\n' % (self.tag, self.text))")
+V('c07-tag-admits-space', 'C07', 'R7.6', TAGPY,
+  "_pattern = re.compile(br'[\\x21\\x23\\x24\\x26\\x27\\x2C-\\x5B'",
+  "_pattern = re.compile(br'[\\x20\\x21\\x23\\x24\\x26\\x27\\x2C-\\x5B'")
+V('c07-list-skips-close', 'C07', 'R7.7', PRIM,
+  '''            else:
+                writer.write(bytes(item))
+        writer.write(b')')''', '''            else:
+                writer.write(bytes(item))
+        if self.items:
+            writer.write(b')')''')
+V('c07-unbalanced-format', 'C07', 'R7.7', RESPINIT,
+  "return BytesFormat(b'[%b]') % self.code",
+  "return BytesFormat(b'[%b') % self.code")
+V('c07-literal-length-of-bytes', 'C07', 'R7.8', PRIM,
+  '''        self._string = string
+        self._length = len(string)
+        self._binary = binary''', '''        self._string = string
+        self._length = len(bytes(string).rstrip())
+        self._binary = binary''')
+V('c07-literal-writes-extra', 'C07', 'R7.8', PRIM,
+  '''        else:
+            writer.write(self._string)
+
+    def __len__''', '''        else:
+            writer.write(self._string)
+            writer.write(b' ')
+
+    def __len__''')
+# twins
+V('c07-twin-range-form', 'C07', 'R7.4', MODUTF7,
+  '''            elif 0x20 <= charpoint <= 0x7e:
+                ret.append(charpoint)''', '''            elif 0x20 <= charpoint < 0x7f:
+                ret.append(charpoint)''', expect='silent')
+V('c07-twin-fetch-one-write', 'C07', 'R7.5', RESPSPEC,
+  '''        data_list.write(writer)
+        writer.write(b'\\r\\n')''', '''        data_list.write(writer)
+        crlf = b'\\r\\n'
+        writer.write(crlf)''', expect='silent')
